@@ -138,6 +138,9 @@ def run_tlc(scr, specdir, module, cfg_text, name, workers=8, timeout=900, heap="
     m = re.search(r"Error: Invariant (\S+) is violated", both)
     if m:
         res.violated = m.group(1)
+    m3 = re.search(r"Error: The invariant of (\S+) is equal to FALSE", both)
+    if m3:
+        res.violated = m3.group(1)
     m2 = re.search(r"Error: Action property (\S+) is violated", both)
     if m2:
         res.violated = m2.group(1)
